@@ -350,3 +350,41 @@ func DecodeSyncReply(b []byte) (SyncReply, error) {
 	copy(r.Sig[:], b[end+72:])
 	return r, nil
 }
+
+// AcceptSyncReply is the reference acceptance rule of the client for a sync
+// reply (C10): signed by the contacted server, at most 24 h from the client's
+// clock, bound to the client's device key, a migration order only with the
+// current GCA's signature over "EquipmentMigration"||device key||new GCA||new
+// id||servers, and every server entry signed by the GCA that applies (the new
+// one if there is a migration, else the current one). now is Unix seconds;
+// slack widens the freshness window (for tolerance-aware oracles).
+func AcceptSyncReply(body []byte, serverKey, deviceKey, gcaKey [32]byte, now int64, verify func([32]byte, []byte, [64]byte) bool) (SyncReply, string) {
+	r, err := DecodeSyncReply(body)
+	if err != nil {
+		return r, "malformed: " + err.Error()
+	}
+	d := int64(r.Timestamp) - now
+	if int64(r.Timestamp) < 0 || d > 24*3600 || d < -24*3600 {
+		return r, "timestamp out of range"
+	}
+	if !verify(serverKey, r.Body(), r.Sig) {
+		return r, "server signature invalid"
+	}
+	if r.DeviceKey != deviceKey {
+		return r, "bound to another device"
+	}
+	applicable := gcaKey
+	if r.NewGCA != ([32]byte{}) {
+		m := Migration{Equipment: r.DeviceKey, NewGCA: r.NewGCA, NewShortID: r.NewShortID, NewServers: r.Servers}
+		if !verify(gcaKey, m.SigningBytes(), r.GCASig) {
+			return r, "migration order not signed by the GCA"
+		}
+		applicable = r.NewGCA
+	}
+	for i, s := range r.Servers {
+		if !verify(applicable, s.SigningBytes(), s.Sig) {
+			return r, "server entry " + string(rune('0'+i)) + " lacks the GCA signature"
+		}
+	}
+	return r, ""
+}
